@@ -318,7 +318,7 @@ var c18Reviewed = []reviewEntry{
 		"the key enumerates the same map, and quorum maps only ever receive non-nil participants", premOrdered},
 	{re(`^\(\*services/node\.BaseNodeService\)\.processMessage:payload-deref:.*SigningProposalPayload\.BatchID$`),
 		"executed only when the stored state has the prefix state_signing_ — all such states lie behind event_signing_init, which allocates the pointer", premSigningPrefix},
-	{re(`^services/node\.recoverFullSign:payload-deref:.*DKGProposalPayload\.PubPolyBz$`),
+	{re(`^services/node\.(recoverFullSign|reconstructThresholdSignature):payload-deref:.*DKGProposalPayload\.PubPolyBz$`),
 		"reached only from processMessage when the FSM answered state_signing_partial_signs_collected, a state behind event_dkg_init", premRecover},
 	{re(`^\(\*services/node\.BaseNodeService\)\.ApproveParticipation:decoded-deref:json\(s\.getOperation\(dto\.OperationID\)#0\.Payload\)`),
 		"the payload decoded here is that of an operation taken from the node's own pool, which the node wrote itself from its FSM's response (durable state of the node, not an input)", nil},
